@@ -397,7 +397,7 @@ public:
             dim.label(label);
         if (unit.size() > 0)
             dim.unit(unit);
-        if (offset > 0.0)
+        if (offset != 0.0)
             dim.offset(offset);
         return dim;
     }
